@@ -1893,3 +1893,16 @@ def rule_sig_open(text):
             apps.append(_app("R-handle", text, mm.start(), mm.end(), rep, why))
             text = text[:mm.start()] + rep + text[mm.end():]
     return text, apps
+
+
+def rule_sizeof(text):
+    """mem::size_of::<uN>() -> its value"""
+    apps = []
+    for ty, val in (("u16", "2usize"), ("u32", "4usize"), ("u64", "8usize"), ("u8", "1usize")):
+        while True:
+            mm = re.search(r"(?:std\s*::\s*)?mem\s*::\s*size_of\s*::\s*<\s*%s\s*>\s*\(\s*\)" % ty, text)
+            if not mm:
+                break
+            apps.append(_app("R-sizeof", text, mm.start(), mm.end(), val, "definition: size_of::<%s>()" % ty))
+            text = text[:mm.start()] + val + text[mm.end():]
+    return text, apps
